@@ -405,4 +405,6 @@ def run(ck):
     if sqltext is not None and not ck.replay:
         # the planner theorems are about LogqlPlan.v: tie it to the Go planners byte for byte
         sqltext.run_logql(ck, n_quick=400, n_thorough=20000)
+        if hasattr(sqltext, "run_logql_metric"):
+            sqltext.run_logql_metric(ck, n_quick=300, n_thorough=15000)
     run_scan(ck)
